@@ -232,4 +232,326 @@ theorem shlPass_tight (s : Nat) (A A' : Arr) (h : shlPass s A = some A') (hl : A
     apply skipDown_stop
     rw [hlen]; exact hl
 
+
+/-! ### the state invariant of the limb-level run -/
+
+/-- a work array in the state the loops of to_double keep it in -/
+structure Good (A : Arr) : Prop where
+  wf : WF A
+  len : A.digits.length = BIGNUM_DIGITS
+  lsd : A.lsd < BIGNUM_DIGITS
+  ord : A.msd ≤ A.lsd + 1
+  pos : natOfLimbs A.digits ≠ 0
+
+theorem nonzero_between (A : Arr) (wf : WF A) (hpos : natOfLimbs A.digits ≠ 0) :
+    ∃ j, A.msd ≤ j ∧ j ≤ A.lsd ∧ A.digits.getD j 0 ≠ 0 := by
+  obtain ⟨j, hj⟩ := exists_nonzero _ hpos
+  refine ⟨j, ?_, ?_, hj⟩
+  · rcases Nat.lt_or_ge j A.msd with h | h
+    · exact absurd (wf.zlo j h) hj
+    · exact h
+  · rcases Nat.lt_or_ge A.lsd j with h | h
+    · exact absurd (wf.zhi j h) hj
+    · exact h
+
+theorem shlPass_good (s : Nat) (A A' : Arr) (h : shlPass s A = some A') (g : Good A) :
+    Good A' ∧ natOfLimbs A'.digits = natOfLimbs A.digits * pow2 s ∧ Tight A' := by
+  have hl : A.lsd < A.digits.length := by rw [g.len]; exact g.lsd
+  obtain ⟨hv, hlen, wf'⟩ := shlPass_spec s A A' h g.wf g.ord hl
+  have hpos' : natOfLimbs A'.digits ≠ 0 := by
+    rw [hv]
+    exact Nat.mul_ne_zero g.pos (Nat.ne_of_gt (Nat.two_pow_pos s))
+  have ht := shlPass_tight s A A' h hl hlen
+  -- the fields of A'
+  have hf : A'.msd ≤ A.msd ∧ A'.lsd = skipDown A'.digits.length A'.digits A.lsd := by
+    unfold shlPass at h
+    simp only at h
+    split at h
+    · cases h
+    · simp only [Option.some.injEq] at h
+      rw [← h]
+      simp only
+      exact ⟨Nat.sub_le _ _, trivial⟩
+  obtain ⟨j, hj1, hj2, hj3⟩ := nonzero_between A' wf' hpos'
+  have hsd := skipDown_spec A'.digits.length A'.digits A.lsd
+  refine ⟨⟨wf', by rw [hlen]; exact g.len, ?_, ?_, hpos'⟩, hv, ht⟩
+  · have := g.lsd
+    omega
+  · omega
+
+theorem shrPass_good (s : Nat) (A A' : Arr) (h : shrPass 0 s A = some A') (g : Good A) :
+    Good A' ∧ natOfLimbs A'.digits * pow2 s = natOfLimbs A.digits := by
+  obtain ⟨hv, hlen, wf', hl', hl2⟩ := shrPass_spec 0 s A A' h g.wf g.ord
+  have hpos' : natOfLimbs A'.digits ≠ 0 := by
+    intro h0
+    rw [h0, Nat.zero_mul] at hv
+    exact g.pos hv.symm
+  have hf : A'.msd = skipUp A'.digits.length A'.digits A.msd := by
+    unfold shrPass at h
+    simp only at h
+    split at h
+    · cases h
+    · split at h
+      · cases h
+      · simp only [Option.some.injEq] at h
+        rw [← h]
+  -- a non-zero limb at or above the old msd: the prefix is still zero
+  obtain ⟨j, hj1, hj2, hj3⟩ := nonzero_between A' wf' hpos'
+  have hsu := (skipUp_spec A'.digits.length A'.digits A.msd).1
+  have hjm : A.msd ≤ j := by omega
+  have hle := skipUp_le A'.digits.length A'.digits A.msd j hjm hj3
+  refine ⟨⟨wf', by rw [hlen]; exact g.len, by rw [← g.len, ← hlen]; exact hl', ?_, hpos'⟩, hv⟩
+  omega
+
+/-! ### ldexp of an exactly doubled integer -/
+
+theorem bitLen_mul_pow (m k : Nat) (hm : m ≠ 0) : bitLen (m * 2 ^ k) = bitLen m + k := by
+  obtain ⟨h1, h2⟩ := bitLen_bounds m hm
+  have hb1 : 1 ≤ bitLen m := by
+    rcases Nat.eq_zero_or_pos (bitLen m) with h | h
+    · rw [h] at h2; simp at h2; omega
+    · exact h
+  have e : bitLen m + k = (bitLen m - 1 + k) + 1 := by omega
+  rw [e]
+  apply bitLen_of_bounds
+  · rw [Nat.pow_add]; exact Nat.mul_le_mul_right _ h1
+  · have : bitLen m - 1 + k + 1 = bitLen m + k := by omega
+    rw [this, Nat.pow_add]
+    exact Nat.mul_lt_mul_of_pos_right h2 (Nat.two_pow_pos k)
+
+theorem ldexp_dbl (neg : Bool) (m k : Nat) (e : Int) (hm : m ≠ 0) (hb : bitLen m + k ≤ 53) (he : -1022 ≤ e - (k : Int)) :
+    ldexpNat neg (m * 2 ^ k) (e - (k : Int)) = ldexpNat neg m e := by
+  have hb1 : 1 ≤ bitLen m := by
+    obtain ⟨_, h2⟩ := bitLen_bounds m hm
+    rcases Nat.eq_zero_or_pos (bitLen m) with h | h
+    · rw [h] at h2; simp at h2; omega
+    · exact h
+  have hmk : m * 2 ^ k ≠ 0 := Nat.mul_ne_zero hm (Nat.ne_of_gt (Nat.two_pow_pos k))
+  unfold ldexpNat
+  simp only [hm, hmk, if_false, bitLen_mul_pow m k hm]
+  have e1 : e - (k : Int) + ((bitLen m + k : Nat) : Int) = e + ((bitLen m : Nat) : Int) := by omega
+  rw [e1]
+  by_cases hinf : e + ((bitLen m : Nat) : Int) > 1024
+  · simp only [hinf, if_true]
+  · simp only [hinf, if_false]
+    have n1 : e + ((bitLen m : Nat) : Int) - 1 ≥ -1022 := by omega
+    simp only [n1, if_true]
+    have c1 : bitLen m + k ≤ 53 := hb
+    have c2 : bitLen m ≤ 53 := by omega
+    simp only [c1, c2, if_true]
+    unfold pow2
+    have p1 : m * 2 ^ k * 2 ^ (53 - (bitLen m + k)) = m * 2 ^ (53 - bitLen m) := by
+      rw [Nat.mul_assoc, ← Nat.pow_add]
+      congr 2
+      omega
+    rw [p1]
+    congr 1
+    omega
+
+
+/-! ### the mantissa loop and the rounding: limb level against exact level -/
+
+theorem rel_cross (A : Arr) (u num den : Nat) (h : Rel A u num den) : natOfLimbs A.digits * den = num * Wt A u := h
+
+theorem floor_agree (A : Arr) (u num den : Nat) (g : Good A) (hu : u < BIGNUM_DIGITS) (hden : 0 < den) (h : Rel A u num den) :
+    mantissaOf A u = num / den := by
+  rw [mantissaOf_eq A u g.wf, ← (floor_units A u g.wf (by rw [g.len]; exact hu)).1]
+  exact div_eq_of_cross _ _ _ _ (Wt_pos A u) hden h
+
+theorem frac_agree (A : Arr) (u num den : Nat) (hden : 0 < den) (h : Rel A u num den) :
+    natOfLimbs A.digits % Wt A u = 0 ↔ num % den = 0 :=
+  mod_zero_iff_of_cross _ _ _ _ (Wt_pos A u) hden h
+
+/-- rounding, carry and ldexp agree -/
+theorem finish_agree (A : Arr) (u num den : Nat) (e : Int) (g : Good A) (hu : u < BIGNUM_DIGITS) (hden : 0 < den)
+    (h : Rel A u num den) : finishL A u e = finish num den e := by
+  have hlen : u < A.digits.length := by rw [g.len]; exact hu
+  have hr : roundToIntLimbs A.digits (mantissaOf A u) u A.lsd = roundToInt num den := by
+    rw [mantissaOf_eq A u g.wf,
+      CifModel.Lemmas.NumbLimbRound.roundToIntLimbs_eq A.digits u A.lsd g.wf.small g.wf.zhi (by rw [g.len]; exact g.lsd) hlen]
+    exact roundToInt_cross _ _ _ _ (Wt_pos A u) hden h
+  unfold finishL finish
+  rw [hr]
+
+theorem finish_exact_val (num den : Nat) (e : Int) (hden : 0 < den) (h0 : num % den = 0) (hM : num / den < 2 ^ 53) :
+    finish num den e = ldexpNat false (num / den) e := by
+  unfold finish
+  have : roundToInt num den = num / den := by
+    rw [CifModel.Lemmas.NumbRound.roundToInt_eq num den hden]
+    exact roundHalfEven_exact num den hden h0
+  rw [this]
+  have : ¬ (pow2 53 - 1 < num / den) := by unfold pow2; omega
+  simp only [this, if_false]
+
+/-- from a tight state the two loops take the same decisions -/
+theorem mant_sim_tight (u : Nat) (hu : u < BIGNUM_DIGITS) : ∀ (fuel : Nat) (A : Arr) (e : Int) (num den : Nat) (m : Arr × Int),
+    Good A → Tight A → 0 < den → Rel A u num den → mantLoopL fuel A u e = some m →
+    finishL m.1 u m.2 = finish (mantLoop fuel num den e).1 den (mantLoop fuel num den e).2 := by
+  intro fuel
+  induction fuel with
+  | zero =>
+    intro A e num den m g _ hden hrel hm
+    simp only [mantLoopL, Option.some.injEq] at hm
+    rw [← hm]
+    simp only [mantLoop]
+    exact finish_agree A u num den e g hu hden hrel
+  | succ f ih =>
+    intro A e num den m g ht hden hrel hm
+    have hlen : u < A.digits.length := by rw [g.len]; exact hu
+    have hfl := floor_agree A u num den g hu hden hrel
+    have hfr := frac_agree A u num den hden hrel
+    -- tight: a limb behind the units limb ⇔ a fractional part
+    have hiff : A.lsd ≤ u ↔ num % den = 0 := by
+      constructor
+      · intro hle
+        apply hfr.mp
+        apply Classical.byContradiction
+        intro hne
+        have := frac_limbs A u g.wf hlen hne
+        omega
+      · intro h0
+        rcases Nat.lt_or_ge u A.lsd with h1 | h1
+        · exact absurd (hfr.mpr h0) (tight_frac A u g.wf hlen ht (by rw [g.len]; exact g.lsd) h1)
+        · exact h1
+    rw [mantLoopL] at hm
+    rw [mantLoop]
+    rw [hfl] at hm
+    by_cases hc : pow2 52 ≤ num / den ∨ num % den = 0
+    · have hcL : pow2 52 ≤ num / den ∨ A.lsd ≤ u := by
+        rcases hc with h | h
+        · exact Or.inl h
+        · exact Or.inr (hiff.mpr h)
+      rw [if_pos hcL] at hm
+      rw [if_pos hc]
+      simp only [Option.some.injEq] at hm
+      rw [← hm]
+      exact finish_agree A u num den e g hu hden hrel
+    · have hcL : ¬ (pow2 52 ≤ num / den ∨ A.lsd ≤ u) := by
+        intro h
+        rcases h with h | h
+        · exact hc (Or.inl h)
+        · exact hc (Or.inr (hiff.mp h))
+      rw [if_neg hcL] at hm
+      rw [if_neg hc]
+      cases hp : shlPass 1 A with
+      | none => rw [hp] at hm; cases hm
+      | some A' =>
+        rw [hp] at hm
+        simp only at hm
+        obtain ⟨g', hv, ht'⟩ := shlPass_good 1 A A' hp g
+        have hrel' : Rel A' u (num * 2) den := by
+          unfold Rel Wt at *
+          rw [g'.len, hv]
+          rw [g.len] at hrel
+          unfold pow2
+          calc natOfLimbs A.digits * 2 ^ 1 * den = (natOfLimbs A.digits * den) * 2 := by grind
+            _ = num * Bb ^ (BIGNUM_DIGITS - (u + 1)) * 2 := by rw [hrel]
+            _ = num * 2 * Bb ^ (BIGNUM_DIGITS - (u + 1)) := by grind
+        exact ih A' (e - 1) (num * 2) den m g' ht' hden hrel' hm
+
+
+theorem rel_double (A A' : Arr) (u num den : Nat) (g : Good A) (g' : Good A') (hrel : Rel A u num den) (k : Nat)
+    (hv : natOfLimbs A'.digits = natOfLimbs A.digits * pow2 k) : Rel A' u (num * 2 ^ k) den := by
+  unfold Rel Wt at *
+  rw [g'.len, hv]
+  rw [g.len] at hrel
+  unfold pow2
+  calc natOfLimbs A.digits * 2 ^ k * den = (natOfLimbs A.digits * den) * 2 ^ k := by grind
+    _ = num * Bb ^ (BIGNUM_DIGITS - (u + 1)) * 2 ^ k := by rw [hrel]
+    _ = num * 2 ^ k * Bb ^ (BIGNUM_DIGITS - (u + 1)) := by grind
+
+theorem num_pos_of_rel (A : Arr) (u num den : Nat) (g : Good A) (hden : 0 < den) (hrel : Rel A u num den) : 0 < num := by
+  rcases Nat.eq_zero_or_pos num with h | h
+  · exfalso
+    unfold Rel at hrel
+    rw [h, Nat.zero_mul] at hrel
+    rcases Nat.mul_eq_zero.mp hrel with h1 | h1
+    · exact g.pos h1
+    · omega
+  · exact h
+
+theorem bitLen_le_of_lt (M k : Nat) (hM : M ≠ 0) (h : M < 2 ^ k) : bitLen M ≤ k := by
+  obtain ⟨h1, _⟩ := bitLen_bounds M hM
+  have : 2 ^ (bitLen M - 1) < 2 ^ k := Nat.lt_of_le_of_lt h1 h
+  have := (Nat.pow_lt_pow_iff_right (by decide : 1 < 2)).mp this
+  omega
+
+/-- the mantissa loop from any state the scaling leaves (possibly with `lsd` on a zero limb, then `e ≥ 0`) -/
+theorem mant_sim (u : Nat) (hu : u < BIGNUM_DIGITS) (f : Nat) (A : Arr) (e : Int) (num den : Nat) (m : Arr × Int)
+    (g : Good A) (he : 0 ≤ e) (hden : 0 < den) (hrel : Rel A u num den) (hm : mantLoopL (f + 2) A u e = some m) :
+    finishL m.1 u m.2 = finish (mantLoop (f + 2) num den e).1 den (mantLoop (f + 2) num den e).2 := by
+  have hlen : u < A.digits.length := by rw [g.len]; exact hu
+  have hfl := floor_agree A u num den g hu hden hrel
+  have hfr := frac_agree A u num den hden hrel
+  have himp : A.lsd ≤ u → num % den = 0 := by
+    intro hle
+    apply hfr.mp
+    apply Classical.byContradiction
+    intro hne
+    have := frac_limbs A u g.wf hlen hne
+    omega
+  rw [mantLoopL] at hm
+  rw [mantLoop]
+  rw [hfl] at hm
+  by_cases hc : pow2 52 ≤ num / den ∨ num % den = 0
+  · rw [if_pos hc]
+    by_cases hcL : pow2 52 ≤ num / den ∨ A.lsd ≤ u
+    · rw [if_pos hcL] at hm
+      simp only [Option.some.injEq] at hm
+      rw [← hm]
+      exact finish_agree A u num den e g hu hden hrel
+    · -- `lsd` on a zero limb behind the units limb: one exact doubling more than the exact level
+      rw [if_neg hcL] at hm
+      have hM52 : num / den < 2 ^ 52 := by
+        have : ¬ (pow2 52 ≤ num / den) := fun h => hcL (Or.inl h)
+        unfold pow2 at this; omega
+      have h0 : num % den = 0 := by
+        rcases hc with h | h
+        · unfold pow2 at h; omega
+        · exact h
+      cases hp : shlPass 1 A with
+      | none => rw [hp] at hm; cases hm
+      | some A' =>
+        rw [hp] at hm
+        simp only at hm
+        obtain ⟨g', hv, ht'⟩ := shlPass_good 1 A A' hp g
+        have hrel' := rel_double A A' u num den g g' hrel 1 hv
+        have hsim := mant_sim_tight u hu (f + 1) A' (e - 1) (num * 2 ^ 1) den m g' ht' hden hrel' hm
+        rw [hsim]
+        have hnum : num = den * (num / den) := by
+          have := Nat.div_add_mod num den
+          rw [h0, Nat.add_zero] at this
+          exact this.symm
+        have h0' : num * 2 ^ 1 % den = 0 := by
+          rw [hnum, Nat.mul_assoc]; exact Nat.mul_mod_right _ _
+        have hdiv' : num * 2 ^ 1 / den = num / den * 2 ^ 1 := by
+          conv => lhs; rw [hnum]
+          rw [Nat.mul_assoc, Nat.mul_div_cancel_left _ hden]
+        rw [mantLoop, if_pos (Or.inr h0')]
+        rw [finish_exact_val _ den _ hden h0' (by rw [hdiv']; omega),
+          finish_exact_val num den e hden h0 (by omega), hdiv']
+        have hMne : num / den ≠ 0 := by
+          intro hz
+          have hnp := num_pos_of_rel A u num den g hden hrel
+          rw [hz, Nat.mul_zero] at hnum
+          omega
+        have := ldexp_dbl false (num / den) 1 e hMne (by have := bitLen_le_of_lt _ 52 hMne hM52; omega) (by omega)
+        exact this
+  · rw [if_neg hc]
+    have hcL : ¬ (pow2 52 ≤ num / den ∨ A.lsd ≤ u) := by
+      intro h
+      rcases h with h | h
+      · exact hc (Or.inl h)
+      · exact hc (Or.inr (himp h))
+    rw [if_neg hcL] at hm
+    cases hp : shlPass 1 A with
+    | none => rw [hp] at hm; cases hm
+    | some A' =>
+      rw [hp] at hm
+      simp only at hm
+      obtain ⟨g', hv, ht'⟩ := shlPass_good 1 A A' hp g
+      have hrel' := rel_double A A' u num den g g' hrel 1 hv
+      have hsim := mant_sim_tight u hu (f + 1) A' (e - 1) (num * 2 ^ 1) den m g' ht' hden hrel' hm
+      rw [hsim]
+
 end CifModel.Lemmas.NumbLimbRefine
